@@ -232,7 +232,7 @@ package anthropic
 //@ func (t *Translator) transformStreamingSync
 //@   property C13 C20
 //@   safety
-//@   requires t != nil && rc != nil && t.logger != nil && streamInv(state)
+//@   requires t != nil && rc != nil && t.logger != nil && streamInv(state) && ctx != nil
 //@   modifies gvar evStarted, gvar evOpen, gvar evNext, gvar evDelta, gvar evStopped, gvar evBroken, gvar unflushed, gvar wBytes, gvar textOut, gvar argsOut, gvar argsIn, state.messageStartSent, state.currentBlock, state.currentIndex, state.contentBlocks, state.toolIndexToBlock[all], state.toolCallBuffers[all], state.model, state.lastFinishReason, state.inputTokens, state.outputTokens, ContentBlock.Text
 //@   loop 1 invariant streamInv(state) && (old(evBroken) ==> evBroken) && (evBroken || (old(argsOut) == old(argsIn) ==> argsOut == argsIn))
 //@   ensures old(evBroken) ==> evBroken
@@ -245,7 +245,7 @@ package anthropic
 //@ func (t *Translator) TransformStreamingResponse
 //@   property C13 C20
 //@   safety
-//@   requires t != nil && t.inspector != nil && t.logger != nil && w != nil
+//@   requires t != nil && t.inspector != nil && t.logger != nil && w != nil && ctx != nil
 //@   requires !evStarted && evOpen == -1 && evNext == 0 && !evDelta && !evStopped && !evBroken
 //@   requires argsOut == "" && argsIn == ""
 //@   modifies *
